@@ -1,7 +1,10 @@
 package main
 
 import (
+	"bufio"
+	"bytes"
 	"context"
+	"encoding/json"
 	"fmt"
 	"os"
 	"path/filepath"
@@ -53,6 +56,41 @@ type m14Scenario struct {
 	Crew []mrec      `json:"crew"`
 	To   interface{} `json:"to"`
 	N    int         `json:"n"`
+	// Via: "" - the Service's Go API; "listener" - the text protocol of Service.Listener (what the TCP front end
+	// speaks): machines are added and the message is submitted as lines of text, dressed as Dress says
+	Via   string `json:"via,omitempty"`
+	Dress string `json:"dress,omitempty"`
+}
+
+// listenerSay runs the given lines through Service.Listener and returns the response lines.
+func listenerSay(s *Service, text string) ([]string, error) {
+	var out bytes.Buffer
+	err := s.Listener(context.Background(), bufio.NewReader(strings.NewReader(text)), &out, make(chan bool, 1))
+	var resp []string
+	for _, l := range strings.Split(out.String(), "\n") {
+		if strings.TrimSpace(l) != "" {
+			resp = append(resp, l)
+		}
+	}
+	return resp, err
+}
+
+// dressLine surrounds the line that carries the judged message with what a client may send around it.
+func dressLine(js []byte, dress string) string {
+	line := string(js)
+	switch dress {
+	case "comments":
+		return "# a comment\n\n   \n" + line + "\n# " + line + "\n"
+	case "crlf":
+		return "json\r\n" + line + "\r\n"
+	case "indent":
+		return " \t" + line + "  \n"
+	case "junk":
+		return "{\"cop\":{\"process\":\n" + line + "\nnot json at all\n"
+	case "after-unknown":
+		return `{"cop":{"process":{"message":{"to":"zz","trail":"stray","n":1}}}}` + "\n" + line + "\n"
+	}
+	return line + "\n"
 }
 
 type m14Case struct {
@@ -129,7 +167,12 @@ type m14Run struct {
 	logs    map[string]string
 	emitted string
 	err     string
+	resp    []string
+	lerr    error
 }
+
+//go:norace
+func (r *m14Run) setResp(resp []string, err error) { r.resp, r.lerr = resp, err }
 
 func runM14(dir string, sc m14Scenario, prefix, prefixN []int) (*sched.Exec, *m14Run) {
 	r := &m14Run{logs: map[string]string{}}
@@ -145,6 +188,16 @@ func runM14(dir string, sc m14Scenario, prefix, prefixN []int) (*sched.Exec, *m1
 	e.s.wsClientC = make(chan interface{}, 64)
 	bg := context.Background()
 	for _, m := range sc.Crew {
+		if sc.Via == "listener" {
+			js, _ := json.Marshal(map[string]interface{}{"cop": map[string]interface{}{"add": map[string]interface{}{"m": map[string]interface{}{
+				"id": m.Id, "spec": map[string]interface{}{"name": "recorder"},
+				"state": map[string]interface{}{"node": "start", "bs": map[string]interface{}{"mode": m.Mode, "target": m.Target}}}}}})
+			resp, err := listenerSay(e.s, string(js)+"\n")
+			if err != nil || len(resp) != 1 || strings.Contains(resp[0], `"err"`) || strings.Contains(resp[0], `"error"`) {
+				r.err = fmt.Sprintf("add through the listener: %v %v", resp, err)
+			}
+			continue
+		}
 		if err := e.s.AddMachine(bg, "recorder", m.Id, "start", match.Bindings{"mode": m.Mode, "target": m.Target}); err != nil {
 			r.err = "add: " + err.Error()
 		}
@@ -154,6 +207,15 @@ func runM14(dir string, sc m14Scenario, prefix, prefixN []int) (*sched.Exec, *m1
 		msg := map[string]interface{}{"trail": "0", "n": float64(sc.N)}
 		if s, ok := sc.To.(string); !ok || s != "<absent>" {
 			msg["to"] = sc.To
+		}
+		if sc.Via == "listener" {
+			if sc.Dress == "big" {
+				msg["pad"] = strings.Repeat("x", 70000)
+			}
+			js, _ := json.Marshal(map[string]interface{}{"cop": map[string]interface{}{"process": map[string]interface{}{"message": msg}}})
+			resp, err := listenerSay(e.s, dressLine(js, sc.Dress))
+			r.setResp(resp, err)
+			return
 		}
 		e.s.Process(bg, msg, nil)
 	})
@@ -207,10 +269,64 @@ func m14Check(sc m14Scenario, x *sched.Exec, r *m14Run) [][2]string {
 			out = append(out, [2]string{kind, fmt.Sprintf("machine %q received {%s}; addressed to it exactly once each: {%s}", m.Id, r.logs[m.Id], wantLogs[m.Id])})
 		}
 	}
+	if sc.Via == "listener" {
+		// the listener answers every operation with one line; the answer to the judged message names the
+		// machines that walked: exactly the machines the first message addresses
+		if r.lerr != nil {
+			out = append(out, [2]string{"listener-gave-up", fmt.Sprintf("Service.Listener returned %v before the end of the input", r.lerr)})
+		}
+		var walked []string
+		answers := 0
+		for _, l := range r.resp {
+			var op struct {
+				COp struct {
+					Process *struct {
+						Message map[string]interface{}            `json:"message"`
+						Walked  map[string]map[string]interface{} `json:"walked"`
+					} `json:"process"`
+				} `json:"cop"`
+			}
+			if json.Unmarshal([]byte(l), &op) == nil && op.COp.Process != nil && op.COp.Process.Message["trail"] == "0" {
+				answers++
+				for mid := range op.COp.Process.Walked {
+					walked = append(walked, mid)
+				}
+			}
+		}
+		sort.Strings(walked)
+		var want []string
+		for id, l := range wantLogs {
+			for _, t := range strings.Split(l, ",") {
+				if t == "0" {
+					want = append(want, id)
+				}
+			}
+		}
+		sort.Strings(want)
+		if answers != 1 {
+			out = append(out, [2]string{"message-not-processed-exactly-once", fmt.Sprintf("the listener answered the line that carries the message %d times (responses: %d lines)", answers, len(r.resp))})
+		} else if fmt.Sprint(walked) != fmt.Sprint(want) {
+			out = append(out, [2]string{"answer-names-wrong-machines", fmt.Sprintf("the listener's answer says %v walked; the message addresses %v", walked, want)})
+		}
+	}
 	if r.emitted != wantEm {
 		out = append(out, [2]string{"emitted-not-reported-exactly-once", fmt.Sprintf("the host saw {%s}; the machines emitted {%s}", r.emitted, wantEm)})
 	}
 	return out
+}
+
+// m14Vias: every scenario through the Go API and through the listener's text protocol; the dressings of the line
+// take turns (all of them at depth 1, one per scenario beyond)
+func m14Vias(idx uint64, n int) [][2]string {
+	dresses := []string{"", "comments", "crlf", "indent", "junk", "after-unknown", "big"}
+	out := [][2]string{{"", ""}}
+	if n == 1 {
+		for _, d := range dresses {
+			out = append(out, [2]string{"listener", d})
+		}
+		return out
+	}
+	return append(out, [2]string{"listener", dresses[int(idx)%len(dresses)]})
 }
 
 // C14mcrew: routing and asynchronous re-injection in the mcrew service.
@@ -252,47 +368,49 @@ func C14mcrew(c *vh.Ctx) {
 					if c.Quick() && n == depth && len(crew) == 2 && idx%3 != 0 {
 						continue
 					}
-					sc := m14Scenario{Crew: crew, To: to, N: n}
-					c.R.States++
-					seen := map[string]bool{}
-					st := sched.Explore(bound, 3000, func(uint64) bool { return true }, true,
-						func(p, pn []int) *sched.Exec {
-							x, r := runM14(dir, sc, p, pn)
-							x.UserData = r
-							return x
-						},
-						func(x *sched.Exec, devs int) {
-							c.Eval()
-							if devs > 0 {
-								c.Nontrivial()
-							}
-							r := x.UserData.(*m14Run)
-							c.Outcome("m14", fmt.Sprint(r.logs, r.emitted))
-							for _, v := range m14Check(sc, x, r) {
-								key := "C14/mcrew/" + v[0]
-								if seen[key] {
-									c.R.ViolationKeys[key]++
-									continue
+					for _, via := range m14Vias(idx, n) {
+						sc := m14Scenario{Crew: crew, To: to, N: n, Via: via[0], Dress: via[1]}
+						c.R.States++
+						seen := map[string]bool{}
+						st := sched.Explore(bound, 3000, func(uint64) bool { return true }, true,
+							func(p, pn []int) *sched.Exec {
+								x, r := runM14(dir, sc, p, pn)
+								x.UserData = r
+								return x
+							},
+							func(x *sched.Exec, devs int) {
+								c.Eval()
+								if devs > 0 {
+									c.Nontrivial()
 								}
-								seen[key] = true
-								cs, ns := sched.Choices(x.Trace)
-								c.Violation(key, fmt.Sprintf("crew %v to=%v n=%d: %s", sc.Crew, sc.To, sc.N, v[1]), m14Case{Scenario: sc, Choices: cs, Sizes: ns, Trace: sched.FormatTrace(x.Trace)})
-							}
-						})
-					c.R.Traces += int64(st.Schedules)
-					c.R.Transitions += int64(st.Transitions)
-					c.Count("nondeterministic_subtrees", int64(st.Nondet))
-					for _, nn := range st.NondetNotes {
-						c.Note("NONDET: " + nn)
-					}
-					if st.Nondet > 0 || st.Stuck > 0 {
-						c.NotExhaustive(fmt.Sprintf("exploration gaps: %d nondeterministic subtrees, %d stuck", st.Nondet, st.Stuck))
-					}
-					if st.Capped {
-						c.Count("scenarios_capped_at_3000_schedules", 1)
-					}
-					if c.WantSample() && n == depth {
-						c.Sample(map[string]interface{}{"scenario": sc, "schedules": st.Schedules})
+								r := x.UserData.(*m14Run)
+								c.Outcome("m14", fmt.Sprint(r.logs, r.emitted))
+								for _, v := range m14Check(sc, x, r) {
+									key := "C14/mcrew/" + v[0]
+									if seen[key] {
+										c.R.ViolationKeys[key]++
+										continue
+									}
+									seen[key] = true
+									cs, ns := sched.Choices(x.Trace)
+									c.Violation(key, fmt.Sprintf("crew %v to=%v n=%d: %s", sc.Crew, sc.To, sc.N, v[1]), m14Case{Scenario: sc, Choices: cs, Sizes: ns, Trace: sched.FormatTrace(x.Trace)})
+								}
+							})
+						c.R.Traces += int64(st.Schedules)
+						c.R.Transitions += int64(st.Transitions)
+						c.Count("nondeterministic_subtrees", int64(st.Nondet))
+						for _, nn := range st.NondetNotes {
+							c.Note("NONDET: " + nn)
+						}
+						if st.Nondet > 0 || st.Stuck > 0 {
+							c.NotExhaustive(fmt.Sprintf("exploration gaps: %d nondeterministic subtrees, %d stuck", st.Nondet, st.Stuck))
+						}
+						if st.Capped {
+							c.Count("scenarios_capped_at_3000_schedules", 1)
+						}
+						if c.WantSample() && n == depth {
+							c.Sample(map[string]interface{}{"scenario": sc, "schedules": st.Schedules})
+						}
 					}
 				}
 			}
